@@ -279,7 +279,23 @@ func (e *valEnv) corrupt(m *gpbft.GMessage, other *gpbft.GMessage) string {
 	}
 	pt := cm.PowerTable
 	bottom := &gpbft.ECChain{}
-	switch k := r.intn(26); k {
+	switch k := r.intn(28); k {
+	case 26, 27: // a member with an entry (and a key) in the table but ZERO scaled power, with a correct signature of its own
+		for i, sp := range pt.ScaledPower {
+			if sp == 0 && m.Vote.Value != nil {
+				en := pt.Entries[i]
+				m.Sender = en.ID
+				sig, err := e.backend.Sign(e.ctx, en.PubKey, m.Vote.MarshalForSigning(verifNet))
+				if err != nil {
+					return "sender-zero-power"
+				}
+				m.Signature = sig
+				e.sigs[string(sig)] = fmt.Sprintf("(%d, %s)", e.keyTok(en.PubKey), e.pdesc(verifNet, m.Vote, e.chainKeyTok(m.Vote.Value)))
+				return "sender-zero-power-signed"
+			}
+		}
+		m.Sender = 999999
+		return "sender-unknown"
 	case 0:
 		m.Sender = 999999
 		return "sender-unknown"
